@@ -107,9 +107,19 @@ class Program(object):
             statement.translate()
 
         while not self.all_sizes_fixed():
+            progress = False
             for index, statement in enumerate(self.statements):
                 if not statement.fixed_size:
                     statement.determine_pcr_relative_sizes(self.statements, index)
+                    progress = progress or statement.fixed_size
+
+            # No statement could be sized in a full pass: every remaining span straddles
+            # the 8-bit limit, so settle the first one on the 16-bit form which always fits
+            if not progress:
+                for index, statement in enumerate(self.statements):
+                    if not statement.fixed_size:
+                        statement.determine_pcr_relative_sizes(self.statements, index, force_16_bit=True)
+                        break
 
         address = 0
         for index, statement in enumerate(self.statements):
